@@ -458,6 +458,37 @@ func c10Gen(ctx *core.Ctx) {
 		c10Must(ctx, in, "degenerate")
 	}
 
+	// --- ties: a subscriber more than its capacity behind while SEVERAL keys come due on the same
+	// clock step, other subscribers reading promptly; then it resumes: it must see them in the
+	// same order as the others (due-time ties: the model's order is not fixed, the oracle judges)
+	for i := 0; i < 14*scale; i++ {
+		iv := 2
+		in, st, _ := c10StallBase(iv, []int{1, 2, 4, 5}[i%4], []int{51, 52, 52, 53}[r.Intn(4)])
+		for rep, reps := 0, r.Range(1, 2); rep < reps; rep++ {
+			for k, n := 0, r.Range(4, 16); k < n; k++ {
+				in.Ops = append(in.Ops, c10Op{Op: "batch", K: 300 + k})
+			}
+			in.Ops = append(in.Ops, c10Op{Op: "adv", D: iv})
+		}
+		in.Ops = append(in.Ops, c10Op{Op: "readall", I: st}, c10Op{Op: "adv", D: iv})
+		if r.Bool() {
+			in.Ops = append(in.Ops, c10Op{Op: "close"})
+		}
+		c10Must(ctx, in, "ties")
+	}
+
+	// --- mass: many subscribers, channels probed by the caller at the moment Close returns
+	for i := 0; i < 6*scale; i++ {
+		m := c10MassInput{Mass: true, Subs: []int{300, 1000, 2500}[i%3], Value: i%2 == 1, Closers: 1 + i/3%2,
+			Rounds: 3}
+		if i >= 4 {
+			m.Cancel = m.Subs / 3
+		}
+		if err := c10RunMass(ctx, m, "mass"); err != nil {
+			panic(err)
+		}
+	}
+
 	// --- closes: Close called several times, overlapping or one after the other -----------------
 	// (a) while the first is held up by a delivery blocked on a live stalled subscriber: 1..3
 	//     further calls, then one way of releasing (or none), then possibly yet another call
